@@ -9,7 +9,7 @@ def sh(cmd, cwd=None, timeout=3000):
                        env=dict(os.environ, CARGO_NET_OFFLINE="true"))
     return p.returncode, p.stdout
 
-def confirm(mid, name):
+def confirm(mid, name, flags=""):
     wt, out = f"/tmp/mut/{mid}", f"/tmp/mut/{mid}.out"
     res = {}
     sh("git checkout -q -- . && rm -f tests/demo.rs", wt)
@@ -19,10 +19,10 @@ def confirm(mid, name):
     rc, o = sh("cargo test --offline 2>&1 | grep -E '^test result|FAILED'", wt)
     res["existing_tests_pass"] = "FAILED" not in o and "failed; " in o and all(" 0 failed" in l for l in o.splitlines() if l.startswith("test result"))
     sh(f"cp {out}/demo.rs tests/demo.rs", wt)
-    rc, o = sh("cargo test --offline --test demo 2>&1", wt); res["demo_fails_with_patch"] = rc != 0
+    rc, o = sh(f"cargo test --offline {flags} --test demo 2>&1", wt); res["demo_fails_with_patch"] = rc != 0
     res["demo_output_with_patch"] = o[-600:]
     sh("git checkout -q -- src", wt)
-    rc, o = sh("cargo test --offline --test demo 2>&1", wt); res["demo_passes_without_patch"] = rc == 0
+    rc, o = sh(f"cargo test --offline {flags} --test demo 2>&1", wt); res["demo_passes_without_patch"] = rc == 0
     sh("rm -f tests/demo.rs", wt)
     ok = all(res[k] for k in ["patch_applies", "builds", "builds_hooks", "existing_tests_pass", "demo_fails_with_patch", "demo_passes_without_patch"])
     print(mid, name, "CONFIRMED" if ok else "REJECTED", {k: v for k, v in res.items() if k != "demo_output_with_patch"})
@@ -32,6 +32,7 @@ def confirm(mid, name):
         sh(f"cp {out}/patch.diff {out}/demo.rs {d}/")
         meta = json.load(open(f"{out}/meta.json"))
         meta["confirmed"] = {k: v for k, v in res.items()}
+        meta["demo_flags"] = flags
         meta["confirmed_cmds"] = "in a scratch worktree: git apply patch.diff; cargo build --offline [--features verif-hooks]; cargo test --offline (existing tests, unedited); cp demo.rs tests/; cargo test --offline --test demo (fails); git checkout -- src; cargo test --offline --test demo (passes)"
         json.dump(meta, open(f"{d}/meta.json", "w"), indent=1)
     return ok
@@ -64,6 +65,6 @@ def run(name, ids):
 
 if __name__ == "__main__":
     if sys.argv[1] == "confirm":
-        confirm(sys.argv[2], sys.argv[3])
+        confirm(sys.argv[2], sys.argv[3], sys.argv[4] if len(sys.argv) > 4 else "")
     else:
         run(sys.argv[2], sys.argv[3:])
